@@ -545,6 +545,10 @@ def prog_misc2(e, which):
         return T('\\newcommand{\\mya}{') + [P()] + T('}\\mya\\renewcommand{\\mya}{') + [P()] + T('}\\mya')
     if which == 'def-after-newcommand':
         return T('\\newcommand{\\mya}[1]{(#1)}\\def\\mya#1#2{[#2#1]}\\mya') + [P(), P(), P()]
+    if which == 'let-char-redef':             # a name \let to a character is an ordinary name: it can be defined again
+        return T('\\let\\mya=') + [P()] + T('\\mya\\def\\mya{') + [P()] + T('}\\mya')
+    if which == 'let-char-relet':
+        return T('\\def\\myb{') + [P()] + T('}\\let\\mya=') + [P()] + T('\\mya\\let\\mya\\myb\\mya')
     if which == 'call-last-token':
         return T('\\def\\mya{') + [P()] + T('}') + [P()] + T('\\mya')
     raise AssertionError(which)
@@ -552,7 +556,7 @@ def prog_misc2(e, which):
 
 MISC2 = ['call-in-delimited-arg', 'macro-as-arg', 'optional-with-group', 'four-args-optional', 'newcommand-star', 'renew-optional', 'gdef-in-body', 'def-order',
          'two-token-delimiter', 'brace-around-param', 'csname-call-with-arg', 'expandafter-over-args', 'call-last-token', 'expandafter-reuse', 'expandafter-reuse2', 'renew-def', 'renew-let',
-         'renew-newcommand-noargs', 'def-after-newcommand']
+         'renew-newcommand-noargs', 'def-after-newcommand', 'let-char-redef', 'let-char-relet']
 
 
 def h_misc2(e, which):
